@@ -236,6 +236,16 @@ def consensus(
         super_reads[1].append(
             Variant(pos, allele=id_to_allele[pos][1 - best_allele], quality=score)
         )
+    # Variants that are already phased but are not covered by any tagged read keep their phasing
+    for pos, phase in phased.items():
+        if phase is None or pos in votes or phase.block_id is None:
+            continue
+        if len(phase.phase) != 2 or None in phase.phase:
+            continue
+        components[pos] = phase.block_id - 1
+        quality = phase.quality if phase.quality is not None else 0
+        for super_read, allele in zip(super_reads, phase.phase):
+            super_read.append(Variant(pos, allele=allele, quality=int(quality)))
     for read in super_reads:
         read.sort(key=lambda x: x.position)
     return super_reads, components
